@@ -54,7 +54,7 @@ theorem proof_envelope_roundtrip (tag : Nat) (body : List Nat) (ht : tag ≤ 2) 
   | cons b rest => simp [proofFromBytes, proofToBytes, hashTag, ht]
 
 /-- The trace a proof is generated from always has room: see `C03.trace_len_ok`. -/
-theorem trace_has_room (clk r c : Nat) : clk + 1 ≤ C03.traceLen clk r c :=
+theorem trace_has_room (clk r c : Nat) : clk + 2 ≤ traceLen clk r c :=
   (C03.trace_len_ok clk r c).1
 
 example : (Generated.provingOptionSets.map (·.2.1)) = [0, 1, 2, 2] := by decide
